@@ -560,6 +560,9 @@ def graph_keys():
 def main():
     req = json.load(sys.stdin)
     emit = req.get('emit', 'coq')
+    # earlier callers wrecked every graph the package handed them (see _poison.py); no effect unless state is shared
+    import _poison
+    _poison.poison_graph_factories()
     results = []
     for case in req['cases']:
         cres = {'id': case['id'], 'programs': []}
